@@ -21,10 +21,11 @@ func init() {
 			{"DIRECTION-DISPATCH", ruleDirectionDispatch},
 			{"DIRECTION-CONSISTENT", ruleDirectionConsistent},
 			{"PREFIX-END-SHAPE", rulePrefixEndShape},
+			{"SCALAR-KIND-UNIFORM", ruleScalarKindUniform},
 			{"KEY-LAYOUT", ruleKeyLayout},
 		},
 		Meta: eng.PropMeta{
-			Explanation: "Order preservation for all value pairs and round-trip equality are numerical statements and are not decided. Decided is the agreement of the writer's and the reader's tables: (MARKER-PARTITION) by constant evaluation of PeekType's case guards over all 256 byte values, every marker constant selects exactly one Type (no two guards overlap), each marker lands in its own family, null is the smallest and descending-null the largest marker (exhaustive, 256 cells); (MARKER-ORDER) inside each family the markers are ordered as the value classes are (NaN < negative < zero < positive < descending-NaN for both float widths, false < true); (DIRECTION-DISPATCH) EncodeFieldValue, DecodeFieldValue and decodeJSON pick the Descending member of a codec family exactly on the descending edge and the Ascending member otherwise, for every kind; (DIRECTION-CONSISTENT) a ...Descending codec never calls an ...Ascending codec of a value (and vice versa) unless it compensates by bitwise inversion, and where a descending codec inverts the arguments it hands to a shared helper (or takes out of one) it inverts all of them — a half-inverted tuple orders one component the wrong way; (KEY-LAYOUT) EncodeIndexDataStoreKey and DecodeIndexDataStoreKey agree on the separator and pass each field's own Descending flag to the value codec. (PREFIX-END-SHAPE) as in C07: the successor of a key prefix is the copy cut after the incremented byte.",
+			Explanation: "Order preservation for all value pairs and round-trip equality are numerical statements and are not decided. Decided is the agreement of the writer's and the reader's tables: (MARKER-PARTITION) by constant evaluation of PeekType's case guards over all 256 byte values, every marker constant selects exactly one Type (no two guards overlap), each marker lands in its own family, null is the smallest and descending-null the largest marker (exhaustive, 256 cells); (MARKER-ORDER) inside each family the markers are ordered as the value classes are (NaN < negative < zero < positive < descending-NaN for both float widths, false < true); (DIRECTION-DISPATCH) EncodeFieldValue, DecodeFieldValue and decodeJSON pick the Descending member of a codec family exactly on the descending edge and the Ascending member otherwise, for every kind; (DIRECTION-CONSISTENT) a ...Descending codec never calls an ...Ascending codec of a value (and vice versa) unless it compensates by bitwise inversion, and where a descending codec inverts the arguments it hands to a shared helper (or takes out of one) it inverts all of them — a half-inverted tuple orders one component the wrong way; (KEY-LAYOUT) EncodeIndexDataStoreKey and DecodeIndexDataStoreKey agree on the separator and pass each field's own Descending flag to the value codec. (PREFIX-END-SHAPE) as in C07: the successor of a key prefix is the copy cut after the incremented byte. (SCALAR-KIND-UNIFORM) a GraphQL scalar with a single Go representation returns that representation from ParseLiteral for every literal form (a Float32 bound written as an integer literal is a float32, not a float64), because a filter bound is encoded into the index key under the tag of its Go kind.",
 			NotDecided:  "that the byte order of encodings equals the value order for every pair of values, and that decode(encode(v)) == v for every value (negative zero, subnormals, extreme integers, strings with 0x00/0xFF)",
 		},
 	})
@@ -471,4 +472,121 @@ func ruleKeyLayout(c *eng.Ctx) {
 	es, ds := seps(enc), seps(dec)
 	c.Check(len(es) > 0 && strings.Join(es, "") == strings.Join(ds, ""), rule, "Encode≡Decode:separators", enc.Decl.Pos(), fmt.Sprintf("both use separators %v", es),
 		fmt.Sprintf("encoder uses separators %v, decoder %v", es, ds))
+}
+
+// ruleScalarKindUniform: a GraphQL scalar hands the planner ONE Go representation of its values,
+// whichever way the value arrived (variable, float literal, integer literal): the index key of a
+// filter bound is encoded from that Go value, and the encoding is per Go kind (a float64 bound
+// against float32 entries lies in another key region, so `{iq: {_lt: 2}}` finds nothing while
+// `{iq: {_lt: 2.0}}` works). For every scalar built with graphql.NewScalar whose ParseValue is a named
+// coercion function with a single concrete result type T, every concrete result of its ParseLiteral
+// literal has type T as well.
+func ruleScalarKindUniform(c *eng.Ctx) {
+	const rule = "SCALAR-KIND-UNIFORM"
+	n := 0
+	concreteResults := func(info *types.Info, body *ast.BlockStmt) (map[string]token.Pos, bool) {
+		out := map[string]token.Pos{}
+		opaque := false
+		ast.Inspect(body, func(m ast.Node) bool {
+			if _, ok := m.(*ast.FuncLit); ok {
+				return false
+			}
+			r, ok := m.(*ast.ReturnStmt)
+			if !ok || len(r.Results) != 1 {
+				return true
+			}
+			tv, ok := info.Types[r.Results[0]]
+			if !ok || tv.IsNil() {
+				return true
+			}
+			t := tv.Type
+			if b, ok := t.(*types.Basic); ok && b.Info()&types.IsUntyped != 0 {
+				t = types.Default(t)
+			}
+			if types.IsInterface(t) {
+				// delegation (return coerceX(*value)): judged where the delegate is declared
+				if call, ok := ast.Unparen(r.Results[0]).(*ast.CallExpr); !ok || eng.CalleeName(info, call) == "" {
+					opaque = true
+				}
+				return true
+			}
+			if _, seen := out[t.String()]; !seen {
+				out[t.String()] = r.Pos()
+			}
+			return true
+		})
+		return out, opaque
+	}
+	for _, pk := range c.P.Pkgs {
+		if eng.ShortPkg(pk.PkgPath) != "internal/request/graphql/schema/types" {
+			continue
+		}
+		info := pk.TypesInfo
+		for _, f := range pk.Syntax {
+			if strings.HasSuffix(c.P.Fset.Position(f.Pos()).Filename, "_test.go") {
+				continue
+			}
+			ast.Inspect(f, func(m ast.Node) bool {
+				call, ok := m.(*ast.CallExpr)
+				if !ok || !strings.HasSuffix(eng.CalleeName(info, call), ".NewScalar") || len(call.Args) != 1 {
+					return true
+				}
+				cfgLit, ok := ast.Unparen(call.Args[0]).(*ast.CompositeLit)
+				if !ok {
+					return true
+				}
+				var name string
+				var parseValue ast.Expr
+				var parseLiteral *ast.FuncLit
+				for _, el := range cfgLit.Elts {
+					kv, ok := el.(*ast.KeyValueExpr)
+					if !ok {
+						continue
+					}
+					switch k, _ := kv.Key.(*ast.Ident); {
+					case k == nil:
+					case k.Name == "Name":
+						if tv, ok := info.Types[kv.Value]; ok && tv.Value != nil {
+							name, _ = unq(tv.Value.ExactString())
+						}
+					case k.Name == "ParseValue":
+						parseValue = kv.Value
+					case k.Name == "ParseLiteral":
+						parseLiteral, _ = ast.Unparen(kv.Value).(*ast.FuncLit)
+					}
+				}
+				if parseLiteral == nil || parseValue == nil {
+					return true
+				}
+				fo, _ := eng.ObjOf(info, parseValue).(*types.Func)
+				fi := c.P.FuncOfObj(fo)
+				if fi == nil || fi.Decl.Body == nil {
+					return true
+				}
+				want, opaque := concreteResults(fi.Pkg.TypesInfo, fi.Decl.Body)
+				if opaque || len(want) != 1 {
+					return true // the scalar has no single Go representation (JSON, …): nothing to compare
+				}
+				var T string
+				for t := range want {
+					T = t
+				}
+				n++
+				got, _ := concreteResults(info, parseLiteral.Body)
+				var off []string
+				pos := parseLiteral.Pos()
+				for t, p := range got {
+					if t != T {
+						off = append(off, t)
+						pos = p
+					}
+				}
+				sort.Strings(off)
+				c.Check(len(off) == 0, rule, "scalar("+name+"):ParseLiteral-results-are-"+T, pos, "literals and variables give the same Go kind",
+					"the "+name+" scalar's ParseLiteral can return "+strings.Join(off, ", ")+" while its ParseValue returns "+T+": a filter bound written as such a literal is encoded under another kind tag than the stored values, so index range and equality scans miss rows that a scan without the index returns")
+				return true
+			})
+		}
+	}
+	c.Floor(rule, n, 2)
 }
